@@ -139,7 +139,17 @@ def slots_vs_lean(ctx, g, pr, c, hx):
 def run_problem(ctx, g, rng, high_e=False):
     pr = scen.make_problem(rng, n=int(rng.integers(1, 13)))
     N = 6 if not ctx.thorough else 10
-    lib, phys = scen.make_library(rng, pr, N, e_max=0.95)
+    s_values = None
+    if pr.desc["s"]["kind"] == "sampled":
+        # mixed jitter inside ONE call: rows with s == 0 after rows with s > 0 (state left behind by one sample
+        # must not leak into the next)
+        dd = pr.desc["s"]
+        s_values = (np.exp(rng.normal(dd["mu"], dd["sigma"], N)) * scen.U(dd["unit"])).to_value(pr.data_unit)
+        s_values[rng.random(N) < 0.35] = 0.0
+        s_values[0] = abs(s_values[0]) + (s_values[0] == 0) * float(np.exp(dd["mu"]))
+        s_values[N - 1] = 0.0
+        ctx.count("mixed_jitter_library")
+    lib, phys = scen.make_library(rng, pr, N, e_max=0.95, s_values=s_values)
     if high_e:
         phys_e = rng.uniform(0.99, 0.9999, N)
         lib["e"] = phys_e
@@ -270,3 +280,4 @@ def post(ctx):
         ctx.require("cap-binding cases", c["discriminates:cap"], 2)
         ctx.require("p>=2 problems", c["p=2"] + c["p=3"], 4)
         ctx.require("model sanity checks", c["model_sanity_checks"], 10)
+        ctx.require("libraries mixing s == 0 and s > 0 rows", c["mixed_jitter_library"], 3)
